@@ -71,7 +71,11 @@ def make(cls):
         return DistEdge([3, 5], mkinfo(1), est, vs)
     if cat == 'graph':
         vs = [Vertex(1, mkpose(k)), Vertex(2, mkpose(k, 1.0)), Vertex(9, mkpose(k, 2.0))]
-        es = [EdgeOdometry([1, 2], mkinfo(B.CDIM[k]), mkpose(k, 0.5)), EdgeOdometry([2, 1], mkinfo(B.CDIM[k]) * 3.0, mkpose(k, -0.5))]
+        # a nearly consistent graph (residuals ~1e-3): its chi^2 reacts strongly to perturbations far below the tolerance
+        small = np.full(B.CDIM[k], 1e-3)
+        z12 = (vs[1].pose - vs[0].pose) + small
+        z21 = (vs[0].pose - vs[1].pose) + small
+        es = [EdgeOdometry([1, 2], mkinfo(B.CDIM[k]), z12), EdgeOdometry([2, 1], mkinfo(B.CDIM[k]) * 3.0, z21)]
         return Graph(es, vs)
     raise ValueError(cls)
 
@@ -219,6 +223,15 @@ def _one(run, m, dirn, expected):
         run.skip('mutated graph not constructible')
         return
     tol = float(m['tol'])
+    if run.replayed % 2 == 0 and cls[0] in ('graph', 'odo', 'lm', 'custom'):
+        # History dimension: both objects have been evaluated before they are compared (a comparison must depend on the compared content
+        # only, not on cached results of earlier calls)
+        for o in (x, y):
+            try:
+                o.calc_chi2()
+            except Exception:  # noqa
+                pass
+        run.notes['compared_after_evaluation'] = run.notes.get('compared_after_evaluation', 0) + 1
     try:
         got = x.equals(y, tol) if dirn == 'xy' else y.equals(x, tol)
     except Exception as ex:  # noqa
